@@ -359,6 +359,15 @@ def _assert_addable(module: Module, val: ModuleAttr, name: Any) -> None:
             msg = f"Cannot add {val} to {module}: it is attribute `{key}` of {prev}"
             msg += ", which has been elaborated" if isinstance(prev, Module) else ". (Add a copy instead.)"
             raise RuntimeError(msg)
+    _assert_not_declared_port(module, val, held)
+
+
+def _assert_not_declared_port(holder: Any, val: Any, held: Optional[tuple]) -> None:
+    """Raise if `val` is one of the ports declared by an `ExternalModule` or `Primitive`, which adding it to `holder` would re-name."""
+    owner = getattr(val, "_port_of", None)
+    if owner is not None and (held is None or held[0] is not holder):
+        msg = f"Cannot add {val} to {holder}: it is port `{val.name}` of {owner.name}. (Add a copy instead.)"
+        raise RuntimeError(msg)
 
 
 def _holder_of(val: Any) -> Optional[tuple]:
